@@ -22,7 +22,7 @@ class C19(Spec):
     stubs = ["FS-tree stub (checks/fs_model.py, checks/fs_sym.py): os.path.exists/isdir/isfile, os.walk (top-down) and glob.glob (fnmatch '*'/'?' per segment, leading-dot rule, wildcards in the last segment only, no character classes) "
              "over an association list of (path, kind); validated on every replayed witness against the real os.walk/glob on a real tree"]
     cuts = ["logging statements removed after a syntactic purity screen"]
-    assumptions = ["tree shape is fixed (/d with two files whose names are symbolic, /d/s with c.md, e.txt, /d/s/t/g.md); names differ", "argument cells exclude '[' and ']' (glob character classes are outside the stub's contract)"]
+    assumptions = ["tree shape is fixed (/d with two files whose names are symbolic, /d/s with c.md, e.txt, /d/s/t/g.md); names differ", "arguments that contain '[' or ']' together with '*' or '?' are skipped (glob character classes are outside the stub's contract); '[' / ']' in a path without '*' / '?' are covered: such a path is literal and must never reach glob"]
     outside = ["the OS's own walk/glob beyond the stub contract, symlinks, permissions, case-insensitive file systems", "more than 3 path arguments, deeper trees"]
 
     def shards(self, tier):
